@@ -32,14 +32,13 @@ Theorem C09_blank_lines_are_skipped :
 Proof. exact newline_layout_inert. Qed.
 Print Assumptions C09_blank_lines_are_skipped.
 
-(** Where the grammar allows a line break (after && || |): blank lines, comment lines, then blanks
-    and line continuations are skipped, the comments are returned, the command goes on at the next
-    token.  The shape excludes a continuation directly followed by an empty line (known finding F45,
-    which the model exhibits: see Layout.layout_examples). *)
+(** Where the grammar allows a line break (after && || |, after the word and the 'in' of a case,
+    after ;; , after the ';' or the name of a for header, after f()): blanks, blank lines, comment
+    lines and line continuations, in any order and number, are skipped; the comments are returned,
+    each once and in order; the command goes on at the next token. *)
 Theorem C09_line_break_after_an_operator :
-  forall ls bs l rest,
-    forallb lline_ok ls = true -> forallb is_blank bs = true -> forallb inl_ok l = true -> token_start rest = true ->
-    match l with IBlank _ :: _ => False | _ => True end ->
-    scan_linebreak (llines_text ls ++ bs ++ inls_text l ++ rest) = LOk (llines_comments ls) rest.
+  forall l rest,
+    forallb lbitem_ok l = true -> token_start rest = true ->
+    scan_linebreak (lbitems_text l ++ rest) = LOk (lbitems_comments l) rest.
 Proof. exact linebreak_layout_inert. Qed.
 Print Assumptions C09_line_break_after_an_operator.
